@@ -7,12 +7,14 @@ package main
 //	C06/isolation/<op>(<dag>[-><dag>])-changed(<other dag>)   an operation on one DAG changed the answers for another
 //	C06/lookup/glob-metachar-in-name(<bracket|star|question>)                 answers = the model without the runs that ever lived under a name with a glob metacharacter
 //	C06/latest/same-second-order, C06/recent/same-second-order   right runs, wrong order among runs started within the same second
+//	C06/<latest|recent>/order-ignores-start-time/timestamp-like-text-in-name   right statuses of runs of a DAG whose NAME contains text shaped like a start time, not the most recently started / not newest first
 //	C06/retention/removed-run-within-period | kept-older-run     (after removeold)
 //	C06/delete/run-still-returned                                (after removeall)
 //	C06/rename/run-not-carried | run-left-behind                 (after rename)
 //	C06/<find|latest|recent>/<missing|phantom|older-run|foreign-run|wrong-status|wrong-order|wrong-runs>/after-<op kind>[/only-<observers>]
 
 import (
+	"regexp"
 	"sort"
 	"strings"
 )
@@ -129,6 +131,26 @@ func sameSecondOrder(m *Model, q Query, want, got []Item) bool {
 	return differ
 }
 
+// tsLike: the text the store takes for the start time of a history file (jsondb.go rTimestamp).
+var tsLike = regexp.MustCompile(`2\d{7}.\d{2}:\d{2}:\d{2}`)
+
+// startTimeIgnored: the DAG's name itself contains text of the shape of a start time, and the answer is made
+// of right statuses of runs of this DAG, only not the most recently started ones / not newest first.
+func startTimeIgnored(m *Model, q Query, want, got []Item) bool {
+	if q.Kind == "find" || !tsLike.MatchString(q.Dag) || len(got) == 0 || len(got) != len(want) {
+		return false
+	}
+	seen := map[string]bool{}
+	for _, g := range got {
+		r := m.find(q.Dag, g.ID)
+		if r == nil || r.Last != g.Payload || seen[g.ID] {
+			return false
+		}
+		seen[g.ID] = true
+	}
+	return true
+}
+
 func opTargets(o Op, before *Model) []string {
 	switch o.K {
 	case "write", "close":
@@ -199,6 +221,9 @@ func classify(q Query, want, got []Item, panicked bool, wrong, all []string, bef
 	}
 	if sameSecondOrder(after, q, want, got) {
 		return "C06/" + q.Kind + "/same-second-order"
+	}
+	if startTimeIgnored(after, q, want, got) {
+		return "C06/" + q.Kind + "/order-ignores-start-time/timestamp-like-text-in-name"
 	}
 	kind := discKind(after, q, want, got)
 	switch last.K {
